@@ -67,7 +67,7 @@ func defaultsLit(w *World, name string) *Lit {
 
 // deriveExpectation returns the checker for the "expected" operand of the comparison: the derived
 // string must be result 0 of the shared derivation called with (decoded secret, step counter, digits, algorithm).
-func deriveExpectation(w *World, tb *TB, entry *ssa.Function, secretP, pp int, def string, wantCtr func() string, lenOut *string) func(h Hit, exp *Term) string {
+func deriveExpectation(w *World, tb *TB, entry *ssa.Function, secretP, pp int, def string, wantCtr func() []string, lenOut *string) func(h Hit, exp *Term) string {
 	fn := FuncName(entry)
 	gen := w.Func(OtpPath, "GenerateHOTP")
 	var der *ssa.Function
@@ -119,7 +119,7 @@ func deriveExpectation(w *World, tb *TB, entry *ssa.Function, secretP, pp int, d
 		if !tb.EqNorm(ct.Args[roles.Key], wantKey) {
 			return "the derivation key is " + clip(normT(ct.Args[roles.Key]), 140) + ", not DecodeSecret(secret)"
 		}
-		if wc := wantCtr(); wc != "" && ct.Args[roles.Counter].String() != wc {
+		if wc := wantCtr(); len(wc) > 0 && !oneOf(ct.Args[roles.Counter].String(), wc...) {
 			return "the derivation counter is " + clip(normT(ct.Args[roles.Counter]), 160) + ", not the step counter of the window loop"
 		}
 		wd := resolvedField(fn, pp, def, "Digits")
@@ -164,19 +164,14 @@ func runC03(c *Check, w *World) {
 		c.Fatal("ValidateHOTP: cannot identify secret/code/counter/param parameters")
 		return
 	}
-	wi := findWindow(c, w, tb, "R03", val, isStepValidator(w))
-	if wi != nil {
-		checkWindow(c, w, tb, iv, "R03", wi, fmt.Sprintf("param(%s#%d)", fn, ctrP), true)
+	wr := analyseWindow(c, w, tb, iv, "R03", val, isStepValidator(w), fmt.Sprintf("param(%s#%d)", fn, ctrP), true)
+	if wr != nil {
 		// the gated size is param.Skew (default's when nil)
-		if wi.bound != nil {
-			sz := wi.bound
-			if wi.form == "offset" {
-				sz = wi.sizeVal
-			}
-			got := tb.Norm(tb.Of(stripConv(sz))).String()
-			c.Decide(got == resolvedField(fn, pp, "DefaultHOTPParam", "Skew"), "R03.7", fn, "skew-resolution", "the window size is param.Skew, or the default's when param is nil", "the window size is "+clip(got, 200), w.InstrPos(wi.cond))
+		if wr.sizeT != nil {
+			got := tb.Norm(wr.sizeT).String()
+			c.Decide(got == resolvedField(fn, pp, "DefaultHOTPParam", "Skew"), "R03.7", fn, "skew-resolution", "the window size is param.Skew, or the default's when param is nil", "the window size is "+clip(got, 200), wr.firstPos)
 		}
-		checkCompareCore(c, w, tb, "R03", val, codeP, deriveExpectation(w, tb, val, secretP, pp, "DefaultHOTPParam", func() string { return tb.Of(wi.ctrArg).String() }, nil))
+		checkCompareCore(c, w, tb, "R03", val, codeP, deriveExpectation(w, tb, val, secretP, pp, "DefaultHOTPParam", func() []string { return wr.ctrArgs }, nil))
 	}
 	if lit := defaultsLit(w, "DefaultHOTPParam"); lit != nil && lit.Kind == "struct" {
 		d, _ := lit.FieldInt("Digits")
